@@ -88,6 +88,10 @@ fn pair_with<OS: OrdStrat>(a: &R, b: &R, share: bool) -> String {
         (Ok(x), Ok(y)) => {
             let c = guard(|| x.cmp(&y));
             let q = guard(|| x == y);
+            // PartialOrd (what `<` uses) is the same order as Ord
+            if let (Some(c), Some(pc)) = (c, guard(|| x.partial_cmp(&y))) {
+                if pc != Some(c) { return format!("{e} cmp={} !partial_cmp={:?}", ord_s(c), pc); }
+            }
             format!("{e} cmp={} eq={}", c.map(ord_s).unwrap_or("PANIC"),
                     q.map(|b| if b { "1" } else { "0" }).unwrap_or("PANIC"))
         }
@@ -99,7 +103,8 @@ fn pair_with<OS: OrdStrat>(a: &R, b: &R, share: bool) -> String {
 struct Ix<'a, OS>(usize, OrdRoute<'a, OS>);
 impl<'a, OS: OrdStrat> PartialEq for Ix<'a, OS> { fn eq(&self, o: &Self) -> bool { self.1 == o.1 } }
 impl<'a, OS: OrdStrat> Eq for Ix<'a, OS> {}
-impl<'a, OS: OrdStrat> PartialOrd for Ix<'a, OS> { fn partial_cmp(&self, o: &Self) -> Option<Ordering> { Some(self.cmp(o)) } }
+// (`<` on the wrapper goes through OrdRoute's own partial_cmp, as `<` on an OrdRoute does)
+impl<'a, OS: OrdStrat> PartialOrd for Ix<'a, OS> { fn partial_cmp(&self, o: &Self) -> Option<Ordering> { self.1.partial_cmp(&o.1) } }
 impl<'a, OS: OrdStrat> Ord for Ix<'a, OS> { fn cmp(&self, o: &Self) -> Ordering { self.1.cmp(&o.1) } }
 impl<'a, OS: OrdStrat> Borrow<OrdRoute<'a, OS>> for Ix<'a, OS> { fn borrow(&self) -> &OrdRoute<'a, OS> { &self.1 } }
 
